@@ -251,10 +251,10 @@ impl State {
                 halfmove_clock: if mv.is_capture() || mv.piece() == Piece::Pawn {
                     0
                 } else {
-                    state.clock.halfmove_clock + 1
+                    state.clock.halfmove_clock.saturating_add(1)
                 },
                 fullmove_number: if state.turn_to_move == Color::Black {
-                    state.clock.fullmove_number + 1
+                    state.clock.fullmove_number.saturating_add(1)
                 } else {
                     state.clock.fullmove_number
                 },
